@@ -188,17 +188,47 @@ def _parse_tuple(body):
     return vals
 
 
+def _tuples_at(out, head):
+    """Yield the bodies of top-level <<head, ...>> tuples printed by PrintT; TLC wraps long values
+    over several lines, so match brackets across newlines (strings respected)."""
+    start = 0
+    mark = re.compile(r'^<<\s*"' + head + '",', re.M)
+    n = len(out)
+    while True:
+        mm = mark.search(out, start)
+        if not mm:
+            return
+        i = mm.start()
+        depth, j, instr = 0, i, False
+        while j < n:
+            c = out[j]
+            if instr:
+                if c == "\\":
+                    j += 1
+                elif c == '"':
+                    instr = False
+            elif c == '"':
+                instr = True
+            elif c == "<" and out[j:j + 2] == "<<":
+                depth += 1
+                j += 1
+            elif c == ">" and out[j:j + 2] == ">>":
+                depth -= 1
+                j += 1
+                if depth == 0:
+                    break
+            j += 1
+        body = out[i + 2:j - 1]
+        yield " ".join(body.split())
+        start = j
+
+
 def parse_verdicts(out):
     """-> (list of (id, kind, name, extra...), summary tuple or None)"""
-    verdicts, summary = [], None
-    for line in out.splitlines():
-        m = _VLINE.match(line.strip())
-        if m:
-            verdicts.append(tuple(_parse_tuple(m.group(1))))
-            continue
-        s = _SUMMARY.match(line.strip())
-        if s:
-            summary = tuple(_parse_tuple(s.group(1)))
+    verdicts = [tuple(_parse_tuple(b)[1:]) for b in _tuples_at(out, "V")]
+    summary = None
+    for b in _tuples_at(out, "SUMMARY"):
+        summary = tuple(_parse_tuple(b)[1:])
     return verdicts, summary
 
 
